@@ -19,7 +19,7 @@ package age
 //@   loop 1 decreases len(stanzas) - rangeindex
 //@   ensures#nomatch (forall j in 0..len(stanzas) :: wraps(apply(unwrap, 1, stanzas[j]), ErrIncorrectIdentity)) ==> result0 == nil && result1 == ErrIncorrectIdentity   [C01 C04 C05]
 //@   ensures#first forall k in 0..len(stanzas) :: (!wraps(apply(unwrap, 1, stanzas[k]), ErrIncorrectIdentity) && (forall j in 0..k :: wraps(apply(unwrap, 1, stanzas[j]), ErrIncorrectIdentity))) ==> ((apply(unwrap, 1, stanzas[k]) != nil ==> result0 == nil && result1 == apply(unwrap, 1, stanzas[k])) && (apply(unwrap, 1, stanzas[k]) == nil ==> same(result0, apply(unwrap, 0, stanzas[k])) && result1 == nil))   [C01 C04 C05]
-//@   ensures#nil result1 != nil ==> result0 == nil   [C01 C04]
+//@   ensures#nil result1 != nil ==> result0 == nil   [C01 C03 C04]
 //@   modifies nothing
 
 //@ const HKDF32 := 32
@@ -134,7 +134,7 @@ package age
 //@   call hkdf.New#1 requires isfunc(arg0, "crypto/sha256.New") && bytes(arg1) == x25519(bytes(i.secretKey), unb64raw(block.Args[0])) && bytes(arg2) == cat(unb64raw(block.Args[0]), bytes(i.ourPublicKey)) && bytes(arg3) == X25519LABEL   [C05]
 //@   call aeadDecrypt#1 requires arg1 == 16 && same(arg2, block.Body)                                                              [C05]
 //@   ensures#foreign block.Type != "X25519" ==> err == ErrIncorrectIdentity                                                        [C01 C04 C05]
-//@   ensures#nil err != nil ==> fk == nil                                                                                          [C01 C04]
+//@   ensures#nil err != nil ==> fk == nil                                                                                          [C01 C03 C04]
 //@   ensures#wrongkey (block.Type == "X25519" && len(block.Args) == 1 && b64rawok(block.Args[0]) && len(unb64raw(block.Args[0])) == 32 && x25519ok(bytes(i.secretKey), unb64raw(block.Args[0])) && len(block.Body) == 32 && !openok(x25519Key(x25519(bytes(i.secretKey), unb64raw(block.Args[0])), unb64raw(block.Args[0]), bytes(i.ourPublicKey)), zeros(12), bytes(block.Body))) ==> err == ErrIncorrectIdentity   [C01 C04]
 //@   ensures#ok err == nil ==> block.Type == "X25519" && len(fk) == 16 && bytes(fk) == open(x25519Key(x25519(bytes(i.secretKey), unb64raw(block.Args[0])), unb64raw(block.Args[0]), bytes(i.ourPublicKey)), zeros(12), bytes(block.Body))   [C01 C04 C05]
 //@   ensures#frame i.secretKey == old(i.secretKey) && i.ourPublicKey == old(i.ourPublicKey)                                        [C20]
@@ -184,7 +184,7 @@ package age
 //@   call aeadDecrypt#1 requires arg1 == 16 && same(arg2, block.Body)                                                               [C05]
 //@   ensures#foreign block.Type != "scrypt" ==> err == ErrIncorrectIdentity                                        [C01 C04 C10 C05]
 //@   ensures#foreignnokdf block.Type != "scrypt" ==> $scryptcalls == old($scryptcalls)                              [C01 C04 C10 C05]
-//@   ensures#nil err != nil ==> fk == nil                                                                                           [C01 C04]
+//@   ensures#nil err != nil ==> fk == nil                                                                                           [C01 C03 C04]
 //@   ensures#bound (block.Type == "scrypt" && len(block.Args) == 2 && (!canondec(block.Args[1]) || atoi(block.Args[1]) > i.maxWorkFactor)) ==> err != nil && $scryptcalls == old($scryptcalls)   [C10 C14]
 //@   ensures#calls $scryptcalls <= old($scryptcalls) + 1                                                                            [C10 C14]
 //@   ensures#frame i.password == old(i.password) && i.maxWorkFactor == old(i.maxWorkFactor)                                         [C20]
@@ -200,7 +200,7 @@ package age
 //@   loop 1 invariant#noscrypt len(stanzas) != 1 ==> (forall j in 0..rangeindex+1 :: stanzas[j].Type != "scrypt")   [C10 C14]
 //@   loop 1 decreases len(stanzas) - rangeindex
 //@   ensures#alone (len(stanzas) != 1 && (exists j in 0..len(stanzas) :: stanzas[j].Type == "scrypt")) ==> fk == nil && err != nil && !wraps(err, ErrIncorrectIdentity) && $scryptcalls == old($scryptcalls)   [C04 C10 C14]
-//@   ensures#nil err != nil ==> fk == nil                                                                                           [C01 C04]
+//@   ensures#nil err != nil ==> fk == nil                                                                                           [C01 C03 C04]
 //@   ensures#foreign (forall j in 0..len(stanzas) :: stanzas[j].Type != "scrypt") ==> err == ErrIncorrectIdentity   [C01 C04 C05]
 
 //@ func Encrypt(dst, recipients) (wc, err)
@@ -330,7 +330,7 @@ package age
 
 //@ func (*X25519Identity).Unwrap(i, stanzas) (fk, err)
 //@   requires len(i.secretKey) == 32 && len(i.ourPublicKey) == 32 && (forall j in 0..len(stanzas) :: stanzas[j] != nil)
-//@   ensures#nil err != nil ==> fk == nil                                                                                           [C01 C04]
+//@   ensures#nil err != nil ==> fk == nil                                                                                           [C01 C03 C04]
 //@   ensures#foreign (forall j in 0..len(stanzas) :: stanzas[j].Type != "X25519") ==> err == ErrIncorrectIdentity                   [C01 C04 C05]
 //@   ensures#ok1 (len(stanzas) == 1 && err == nil) ==> stanzas[0].Type == "X25519" && len(fk) == 16 && bytes(fk) == open(x25519Key(x25519(bytes(i.secretKey), unb64raw(stanzas[0].Args[0])), unb64raw(stanzas[0].Args[0]), bytes(i.ourPublicKey)), zeros(12), bytes(stanzas[0].Body))   [C01 C04 C05]
 //@   ensures#opens1 (len(stanzas) == 1 && stanzas[0].Type == "X25519" && len(stanzas[0].Args) == 1 && b64rawok(stanzas[0].Args[0]) && len(unb64raw(stanzas[0].Args[0])) == 32 && x25519ok(bytes(i.secretKey), unb64raw(stanzas[0].Args[0])) && len(stanzas[0].Body) == 32 && openok(x25519Key(x25519(bytes(i.secretKey), unb64raw(stanzas[0].Args[0])), unb64raw(stanzas[0].Args[0]), bytes(i.ourPublicKey)), zeros(12), bytes(stanzas[0].Body))) ==> err == nil   [C01 C05]
